@@ -62,7 +62,11 @@ let handle ws = match ws with
   | ["blk"; dir; key; blk] ->
     let k = bytes_of_hex key and b = bytes_of_hex blk in
     if len k <> 16 || len b <> 16 then "ERR bad-op" else
-    if dir = "enc" then both (hx (implE k b)) (hx (specE k b)) else both (hx (implD k b)) (hx (specD k b))
+    (* loop form, unrolled register-file form, Spec *)
+    let u = hx (sm4_encrypt_unrolled (if dir = "enc" then sm4_set_encrypt_key k else sm4_set_decrypt_key k) b) in
+    let i = hx (if dir = "enc" then implE k b else implD k b) in
+    if u <> i then "MODEL-IMPL-SPEC-DIFFER unrolled/loop " ^ u ^ " | " ^ i else
+    both i (hx (if dir = "enc" then specE k b else specD k b))
   | ["bc"; dir; key; blk] ->
     let k = bytes_of_hex key and b = bytes_of_hex blk in
     if len k <> 16 || len b <> 16 then "ERR bad-op" else
@@ -189,6 +193,28 @@ let handle ws = match ws with
     let k = bytes_of_hex key and cs = chunks_of chunks in
     let c = List.fold_left (cbc_mac_update (implE k)) cbc_mac_init cs in
     both (hx (cbc_mac_finish (implE k) c)) (hx (cbc_mac_spec (specE k) (List.concat cs)))
+  | ["a_cbcblocks"; dir; key; iv; data; _] ->
+    let k = bytes_of_hex key and iv = bytes_of_hex iv and d = bytes_of_hex data in
+    let n = len d / 16 in
+    let d' = List.filteri (fun i _ -> i < n * 16) d in
+    if dir = "enc" then
+      (match aes_set_encrypt_key k with None -> "ERR key" | Some (w, r) ->
+        let e = aes_encrypt_rk w r in both (hx (aes_cbc_encrypt e (nat n) iv d)) (hx (cbc_enc_spec e iv d')))
+    else
+      (match aes_set_decrypt_key k with None -> "ERR key" | Some (w, r) ->
+        let dd = aes_decrypt_rk w r in both (hx (aes_cbc_decrypt dd (nat n) iv d)) (hx (cbc_dec_spec dd iv d')))
+  | ["a_cbcpad"; dir; key; iv; data; _] ->
+    let k = bytes_of_hex key and iv = bytes_of_hex iv and d = bytes_of_hex data in
+    if dir = "enc" then
+      (match aes_set_encrypt_key k with None -> "ERR key" | Some (w, r) ->
+        let e = aes_encrypt_rk w r in both (hx (aes_cbc_padding_encrypt e iv d)) (hx (cbc_pad_enc_spec e iv d)))
+    else
+      (match aes_set_decrypt_key k with None -> "ERR key" | Some (w, r) ->
+        let dd = aes_decrypt_rk w r in both (opt hx (aes_cbc_padding_decrypt dd iv d)) (opt hx (cbc_pad_dec_spec dd iv d)))
+  | ["a_ctr"; key; ctr; data; _] ->
+    let k = bytes_of_hex key and c = bytes_of_hex ctr and d = bytes_of_hex data in
+    (match aes_set_encrypt_key k with None -> "ERR key" | Some (w, r) ->
+      let e = aes_encrypt_rk w r in both (pair (aes_ctr_encrypt e c d)) (pair (ctr_spec e c d)))
   | ["tables"] ->
     (match sm4_table_mismatches with [] -> "ok"
      | l -> String.concat "," (List.map (fun (t, i) -> Printf.sprintf "%d:%d" (int_of_n t) (int_of_n i)) l))
